@@ -6,7 +6,9 @@
     representative key types rotating through a catalog, every position, plus singles / pairs / seeded random keysets;
     the driver builds each keyset with real code and runs NewHandleWithNoSecrets, ReadWithNoSecrets, WriteWithNoSecrets,
     String(), KeysetInfo(), every writer and every reader (incl. wrong KEK / wrong AD / both) on it, decodes every
-    artifact independently and scans it for every 8-byte window of every key's secret bytes (raw, hex, base64);
+    artifact independently and scans it for every 8-byte window of every key's secret bytes (raw, hex, base64); every
+    string-valued output (error texts, fmt %v %+v %#v of handle / entries / key objects / parameters, panic values) is
+    scanned too, additionally with backslash escapes (Go, protobuf text-format octal) undone and number lists decoded;
 (T) Trace_Secrets.tla judges every record."""
 import json
 import os
@@ -35,8 +37,11 @@ def corrupt(ev, rng):
     if ev["ev"] == "handle":
         if not ev["built"]:
             return None
-        c = rng.randrange(3)
-        if c == 0:
+        c = rng.randrange(4)
+        if c == 3:
+            ev["sec"]["texts"][0]["leak"] = True
+            ev["_corrupted"] = "sec.texts.leak"
+        elif c == 0:
             ev["sec"]["newHandleNoSecrets"]["ok"] = not ev["sec"]["newHandleNoSecrets"]["ok"]
             ev["_corrupted"] = "sec.newHandleNoSecrets.ok"
         elif c == 1:
@@ -46,7 +51,16 @@ def corrupt(ev, rng):
             ev["sec"]["keysetInfo"]["fields"].append("key_info.key_data.value")
             ev["_corrupted"] = "sec.keysetInfo.fields"
         return ev
-    c = rng.randrange(4)
+    c = rng.randrange(5)
+    if c == 4:
+        rs = [r for r in ev["reads"] if not r["ok"]]
+        if not ev["wok"] or not rs:
+            ev["wtextleak"] = True
+            ev["_corrupted"] = "wtextleak"
+        else:
+            rs[rng.randrange(len(rs))]["textleak"] = True
+            ev["_corrupted"] = "reads.textleak"
+        return ev
     if c == 0 and ev["w"]["m"] == "noSecrets":
         ev["wok"] = not ev["wok"]
         if ev["wok"]:
@@ -80,7 +94,8 @@ def run(ctx):
                        "every single catalog key with ids 0 / 2^32-1, catalog pairs with DISABLED / DESTROYED keys and seeded random "
                        "keysets; per keyset: the three *NoSecrets APIs, String(), KeysetInfo(), 16 writers x 16 readers (wrong KEK, "
                        "wrong AD, both, nil vs empty AD), every artifact decoded independently and scanned for every 8-byte window "
-                       "of every secret byte string (raw, hex, base64)")
+                       "of every secret byte string (raw, hex, base64); every error text, fmt rendering and panic value likewise, also with "
+                       "escapes undone (\\ooo, \\xHH) and printed byte lists decoded")
     ctx.assumptions += ["a substring scan cannot see a transformed leak (e.g. XOR-masked key bytes)",
                         "secret byte strings of a key = all of its secretdata.Bytes accessors (found by reflection), 40 random bytes "
                         "inside the value of unregistered key data",
@@ -132,11 +147,15 @@ def run(ctx):
     ctx.stage("R:secrets", keysets=nh, artifacts_decoded_and_scanned=nart, wrong_kek_or_ad_reads_refused=nwrong)
     ctx.sample(slim(json.loads(lines[0])))
     ctx.sample(slim(json.loads(lines[len(lines) // 2])))
+    # the negative control needs a conforming trace: drop the keysets with a disagreement and, because a signature is
+    # reported once per shard, every event of a kind (handle / io) that had one
     bad_n = {m["event"]["n"] for m in mism}
+    bad_ev = {m["event"]["ev"] for m in mism}
     clean = os.path.join(ctx.scratch, "sec-clean.ndjson")
     with open(clean, "w") as f:
         for x in lines:
-            if json.loads(x)["n"] not in bad_n:
+            e = json.loads(x)
+            if e["n"] not in bad_n and e["ev"] not in bad_ev:
                 f.write(x + "\n")
     if not ctx.violations:    # a negative control needs a conforming trace; with a violation the run fails anyway
         ctx.negative_control("Trace_Secrets", clean, corrupt, window=40, stage="NC:Trace_Secrets")
